@@ -640,16 +640,28 @@ pub fn check_request(ctx: &mut Ctx, rng: &mut Rng, corpus: &Corpus, nodes: &[Nod
                             ctx.report.violation("model", "C14:lean-nested-composite-eviction-visible", format!("evicted {} vs whole {}", &ev[..ev.len().min(300)], &wh[..wh.len().min(300)]), case_json(&c, parts, "final"));
                         }
                         // no terms node can be truncated: the complete segment model (cut + eviction) is exact
+                        let fu = ctx.model.ask(&format!("C14 mergedfull {} {}", rq, parts_to_lean(&corpus.docs, &mparts, &ranks)));
                         if mt.is_empty() {
-                            let fu = ctx.model.ask(&format!("C14 mergedfull {} {}", rq, parts_to_lean(&corpus.docs, &mparts, &ranks)));
                             ctx.report.count("model:full-segment-model-compared");
                             if fu != wh {
                                 ctx.report.violation("model", "C14:lean-full-segment-model-not-exact", format!("full {} vs whole {}", &fu[..fu.len().min(300)], &wh[..wh.len().min(300)]), case_json(&c, parts, "final"));
                             }
                         }
+                        // C14_full_model_eq_cut_model: eviction is invisible on top of any terms truncation
+                        ctx.report.count("model:full-model-vs-cut-model-compared");
+                        if fu != m {
+                            ctx.report.violation("model", "C14:lean-full-model-differs-from-cut-model", format!("full {} vs cut-only {}", &fu[..fu.len().min(300)], &m[..m.len().min(300)]), case_json(&c, parts, "final"));
+                        }
+                        // the complete segment model (cut + eviction) = the real result, truncated or not
+                        if m == mine && srs == srs_pv && !corpus.docs.is_empty() {
+                            ctx.report.count("model:full-segment-model-vs-real-compared");
+                            if fu != mine {
+                                ctx.report.violation("model", "C14:lean-full-segment-model-differs-from-real", format!("lean {} vs real {}", &fu[..fu.len().min(300)], &mine[..mine.len().min(300)]), case_json(&c, parts, "final"));
+                            }
+                        }
                     }
                     // a single top-level terms ordered by _key (ascending or descending): exact under truncation (Lean decides applicability)
-                    if nodes.len() == 1 && matches!(nodes[0].agg, Agg::Terms { .. }) && !mparts.is_empty() {
+                    if nodes.iter().any(|n| matches!(n.agg, Agg::Terms { .. } | Agg::Filter { .. })) && !mparts.is_empty() {
                         let ka = ctx.model.ask(&format!("C14 keyasc {} {}", nodes_to_lean(nodes, true, &ranks), parts_to_lean(&corpus.docs, &mparts, &ranks)));
                         if ka == "same" {
                             ctx.report.count("model:terms-key-order-exact-compared");
